@@ -2,7 +2,7 @@
     Model: Model/Completion.v — k start events, an abstract token pool guarded by the wait group,
     the completion monitor and any number of WaitUntilComplete callers; every path of the labelled
     transition system is an interleaving (schedule).  [reach c nw s]: s is reachable with nw callers. *)
-From BV Require Import Model.Completion Proofs.CompletionProofs.
+From BV Require Import Model.Completion Proofs.CompletionProofs Model.StartCount Proofs.StartCountProofs.
 
 (* SAFETY, for every k, every token history, every number of callers and every schedule, in every
    code variant: a wait returns true only when every start event has fired, no token is left and
@@ -70,6 +70,23 @@ Proof.
   - rewrite W1. discriminate.
 Qed.
 Print Assumptions C02_live_refuted_before_fix_c.
+
+(* WHICH start events the monitor counts (Model/StartCount.v): the traces of the inner start events of sub-processes pass
+   through the container's stream too, and a start event may be started twice. The monitor that counts the
+   container's own start events, each once, leaves its first phase exactly when every one of them has fired -- for every
+   trace, whatever foreign or repeated start traces it contains, in whatever order (the engine's answers are replayed
+   against this function: Corr.C02corr c02_start_mismatches) ... *)
+Theorem C02_all_start_events_means_all_own : forall kk tr, phase_one_done true kk tr = all_fired kk tr.
+Proof. exact phase_one_iff_all_fired. Qed.
+Print Assumptions C02_all_start_events_means_all_own.
+
+(* ... the monitor that counts every start-event trace it sees does not (the pinned code, repaired by /repo 33ad8e4): two
+   start events, the first leads into a sub-process, or is started twice *)
+Theorem C02_counting_every_start_trace_refuted :
+  phase_one_done false 2 [Own 0; Foreign 0] = true /\ all_fired 2 [Own 0; Foreign 0] = false /\
+  phase_one_done false 2 [Own 0; Own 0] = true /\ all_fired 2 [Own 0; Own 0] = false.
+Proof. exact refuted_counting_every_trace. Qed.
+Print Assumptions C02_counting_every_start_trace_refuted.
 
 Example C02_nonvacuous :
   let c := {| k := 2; sub_first := true; sigbuf := true |} in
